@@ -326,15 +326,9 @@ def run_case(workload, closes, plan, hook_raises=False):
 
 
 def gen_facts():
-    import re
-    try:
-        txt = open(C.COQ + "/gen/Gen_lifecycle.v").read()
-        f = dict(re.findall(r"Definition (\w+) : bool := (true|false)\.", txt))
-        return [f.get(k) == "true" for k in ("close_checks_closed_first", "close_sets_closed_before_io", "close_cleanup_in_finally", "close_swallows_eof",
-                                             "cleanup_hook_once_guard", "cleanup_clears_in_finally", "serve_read_eof_closes", "serve_dispatch_eof_closes",
-                                             "serve_all_finally_closes")]
-    except OSError:
-        return [True] * 9
+    return [C.gen_fact("lifecycle", k) for k in ("close_checks_closed_first", "close_sets_closed_before_io", "close_cleanup_in_finally", "close_swallows_eof",
+                                                "cleanup_hook_once_guard", "cleanup_clears_in_finally", "serve_read_eof_closes", "serve_dispatch_eof_closes",
+                                                "serve_all_finally_closes")]
 
 
 def clean(sn):
